@@ -21,7 +21,9 @@
 //@ extract FINAL from algorithms/linfa-clustering/src/k_means/algorithm.rs anchor "match best_centroids {" block
 //@ drop FINAL from "let mut cluster_count = Array1::zeros(self.n_clusters());" through ".for_each(|&c| cluster_count[c] += F::one());" as "                let cluster_count = memberships.count_per_cluster_abs();   /* counts the entries of `memberships` per cluster index */"
 //@ rewrite FINAL "Ok(KMeans {" => "Ok(KMeansV {"
-//@ rewrite FINAL "min_inertia / F::cast(dataset.nsamples())" => "min_inertia.div_nsamples_abs()"
+//@ rewrite? FINAL " / F::cast(dataset.nsamples())" => ".div_nsamples_abs()"
+//@ rewrite? FINAL " / F::cast(n_samples)" => ".div_nsamples_abs()"
+//@ rewrite? FINAL "dists.sum()" => "dists.sum_abs()"
 //@ drop FINAL from "dist_fn: self.dist_fn().clone()," through "dist_fn: self.dist_fn().clone()," as "                    /* dropped field: dist_fn */"
 //@ rewrite FINAL "KMeansError::InertiaError" => "ErrTok::InertiaError"
 //@ expect-fail vacuity_guard_fit
